@@ -25,8 +25,8 @@ def values(d):
 class C17(vlib.Check):
     id = "C17"
     props_modules = ["E3fpVerif.Props.C17"]
-    gen_items = ["fprint_fold"]
-    stateful_driver = True
+    gen_items = ["fprint_fold", "fprinter_consts"]
+    stateful_driver = True      # database cases reset the store first; fingerprinter cases are stateless
     rule = ("fingerprints of each kind (generated, and derived by +/- of count fingerprints so that zero differences occur) "
             "converted to each kind with from_fingerprint; databases of each kind converted with as_type and filled with "
             "fingerprints of every kind; the fingerprinter run in bit and in count mode on the same conformer at several "
@@ -63,14 +63,42 @@ class C17(vlib.Check):
                     f2["fp"]["cnt"] = [[i, v if Fraction(v) >= 1 else "2"] for i, v in f2["fp"]["cnt"]]
             self.count("dbconv")
             yield {"t": "dbconv", "kind": kind, "fps": fps, "to": rng.choice(KINDS)}
+        from harness import molgen as MG
+        refs = MG.all_refs()
+        for _ in range(30 if self.tier == "quick" else 500):
+            ref = rng.choice(refs)
+            mol = MG.load_ref(ref)
+            o = MG.gen_opts(rng)
+            o["bits"] = rng.choice([2 ** 32, 4096, 1024, 64, 8])
+            self.count("fprinter-pair")
+            yield {"t": "fprinter", "ref": ref, "conf": rng.randrange(mol.GetNumConformers()), "opts": o}
 
     # ------------------------------------------------------------------
     def _derive(self, case):
         a, b = make_fp(case["a"]), make_fp(case["b"])
         return (a + b) if case["sign"] == 1 else (a - b)
 
+    def _pair(self, case):
+        from harness import molgen as MG
+        mol = MG.load_ref(case["ref"])
+        conf = mol.GetConformer(case["conf"])
+        o = case["opts"]
+        if not MG.in_domain(mol, o):
+            return None
+        out = {}
+        for counts in (False, True):
+            f = MG.make_fprinter(dict(o, counts=counts))
+            f.run(conf, mol)
+            out["count" if counts else "bit"] = dump_fp(f.get_fingerprint_at_level(-1))
+            if counts:
+                ids = [(int(s.identifier) + 2 ** 32) % 2 ** 32 % o["bits"] for s in f.get_shells_at_level(-1)]
+                out["positions"] = sorted(ids)
+        return out
+
     def impl(self, case):
         t = case["t"]
+        if t == "fprinter":
+            return {"res": attempt(lambda: self._pair(case))}
         if t == "conv":
             f = make_fp(case["fp"])
             return {"res": attempt(lambda: CLS[case["to"]].from_fingerprint(f), dump_fp), "src_after": dump_fp(f)}
@@ -89,6 +117,12 @@ class C17(vlib.Check):
 
     def model_ops(self, case):
         t = case["t"]
+        if t == "fprinter":
+            from harness import molgen as MG
+            mol = MG.load_ref(case["ref"])
+            conf = mol.GetConformer(case["conf"])
+            q = [{"level": -1, "bits": None, "mask": []}]
+            return [MG.model_run_op(mol, conf, dict(case["opts"], counts=False), q), MG.model_run_op(mol, conf, dict(case["opts"], counts=True), q)]
         if t == "conv":
             return [{"op": "fp.from_fingerprint", "kind": case["to"], "fp": case["fp"]}]
         if t == "derived":
@@ -99,6 +133,14 @@ class C17(vlib.Check):
 
     def model_answer(self, case, answers):
         t = case["t"]
+        if t == "fprinter":
+            if "ok" not in answers[0]:
+                return {"res": {"ok": None}} if answers[0].get("err") in ("ValueError", "KeyError") else {"res": answers[0]}
+            b = answers[0]["ok"]["queries"][0]["fp"]["ok"]
+            c = answers[1]["ok"]["queries"][0]["fp"]["ok"]
+            bits = case["opts"]["bits"]
+            pos = sorted((s[1] + 2 ** 32) % 2 ** 32 % bits for s in answers[1]["ok"]["queries"][0]["shells"])
+            return {"res": {"ok": {"bit": b, "count": c, "positions": pos}}}
         if t == "conv":
             return {"res": answers[0], "src_after": case["fp"]}
         if t == "derived":
@@ -138,6 +180,20 @@ class C17(vlib.Check):
 
     def prop(self, case):
         t = case["t"]
+        if t == "fprinter":
+            r = self._pair(case)
+            if r is None:
+                return None
+            b, c = r["bit"], r["count"]
+            if b["idx"] != c["idx"]:
+                return {"key": "bit-count-support-differs", "what": "count and bit fingerprints of the same conformer have different positions"}
+            mult = {}
+            for p in r["positions"]:
+                mult[p] = mult.get(p, 0) + 1
+            got = {i: int(Fraction(v)) for i, v in c["cnt"]}
+            if got != mult:
+                return {"key": "count-not-multiplicity", "what": "counts are not the number of accepted substructures hashing to each position"}
+            return None
         r = self.impl(case)["res"]
         if "err" in r:
             return {"key": "conv-raises:%s:%s" % (t, r["err"]), "what": "%s conversion raised %s" % (t, r["err"])}
@@ -161,6 +217,8 @@ class C17(vlib.Check):
         return None
 
     def nontrivial(self, case, a_impl):
+        if case["t"] == "fprinter":
+            return vlib.canon(case) if a_impl.get("res", {}).get("ok") else None
         src = case.get("fp") or case.get("a") or (case["fps"][0]["fp"] if case.get("fps") else None)
         if src and src["idx"]:
             return vlib.canon(case)
